@@ -30,6 +30,22 @@ def build(rng, tier):
                 m = rng.choice(['GET', 'OPTIONS', 'HEAD', 'POST'])
                 hs = [('Origin', 'http://o')] if name != 'Origin' else []
                 cases.append(K.mk(tree, m, rng.choice(paths), hs + [(name, hv)], entry=rng.choice(['proc', 'proc', 'preq']), kind='hostile:' + name))
+        # every way a client can break lines around a value the server echoes: continuation lines (obsolete folding: a line that
+        # starts with SP or HTAB), bare-LF and bare-CR line ends, mixed within one request, blank-looking lines
+        for name, val in (('Origin', 'https://a.example'), ('Access-Control-Request-Headers', 'X-One'), ('Access-Control-Request-Method', 'PUT'), ('Host', 'localhost')):
+            for cont in (b' b', b'\tb', b' ', b'  X-Injected: 1', b' b\r', b'\t'):
+                for e1 in (b'\r\n', b'\n', b'\r'):
+                    for e2 in (b'\r\n', b'\n', b'\r', b'\n\n'):
+                        m = rng.choice(['GET', 'OPTIONS', 'OPTIONS', 'HEAD'])
+                        raw = f'{m} {rng.choice(paths)} HTTP/1.1'.encode() + e1 + b'Host: h' + e1 + (b'Origin: http://o' + e1 if name != 'Origin' else b'') + \
+                              f'{name}: {val}'.encode() + e1 + cont + e2 + b'X-After: z' + e1 + e1
+                        cases.append(K.mk(tree, m, '?', raw=raw, entry=rng.choice(['proc', 'proc', 'preq']), kind='folded-line'))
+        # long reflected values: the head grows with them (a budget, a fixed buffer or a cut must not cost the response its shape)
+        for n in (500, 1000, 2000, 3000, 3500, 3600, 4000, 4040, 5000, 6000, 7000, 7200, 7300, 7500, 8000, 8100, 8159, 8160, 8192, 8500, 9000, 9500):
+            for name in ('Origin', 'Access-Control-Request-Headers'):
+                m = 'OPTIONS' if name != 'Origin' or rng.chance(1, 2) else 'GET'
+                hs = ([('Origin', 'http://o')] if name != 'Origin' else []) + [(name, 'x' * n)] + ([('Access-Control-Request-Method', 'PUT')] if m == 'OPTIONS' else [])
+                cases.append(K.mk(tree, m, rng.choice(paths), hs, entry=rng.choice(['proc', 'preq']), kind='long-reflected-value'))
         # all methods x paths
         for i in range(150 if tier == 'quick' else 1500):
             m, t, v, hs, b = G.valid_request(rng, paths)
